@@ -203,7 +203,8 @@ func b2i(b bool) int {
 
 // ---------------------------------------------------------------- F1: tiny, fully exhaustive
 
-var F1Names = []string{"a", "a/b", "ab", "b", "\xc3\xa9\xff"}
+// the last two differ in a UTF-8 continuation byte only (é\xff / ê): byte-wise, not rune-wise, prefix compression
+var F1Names = []string{"a", "a/b", "ab", "b", "\xc3\xa9\xff", "\xc3\xaa"}
 
 func subsets(n, maxK int) [][]int {
 	var out [][]int
